@@ -64,8 +64,10 @@ Inductive task := Leaf (c : ident) | Wf (c : ident) (nodes : list task).
 Definition tid (t : task) : ident := match t with Leaf c => c | Wf c _ => c end.
 
 (* the outside world: what the n-th execution of the body of identity c does when it is
-   entered at history step k, and how a workflow assembles its outputs from its nodes' *)
-Record world := { body : ident -> nat -> nat -> res; wfval : ident -> list value -> value }.
+   entered at history step k, and what collecting a workflow's outputs from its nodes' outputs
+   gives at step k (Outputs._from_job after the nodes: it can raise too — a lazy value that cannot
+   be retrieved, an output type that rejects the value) *)
+Record world := { body : ident -> nat -> nat -> res; wfout : ident -> nat -> list value -> res }.
 
 (* execs c = how many times a job of identity c has been executed so far (the side-file counter) *)
 Record state := { st : store; execs : ident -> nat; clock : nat }.
@@ -126,7 +128,7 @@ Section Run.
           | Leaf _ => (s1, [], body w c (clock s1) (execs s1 c))
           | Wf _ ns =>
               let '(s2, evs, o) := run_nodes (run_job (rerun && prop cfg)) ns s1 [] in
-              (s2, evs, match o with Some vs => Ok (wfval w c vs) | None => Err end)
+              (s2, evs, match o with Some vs => wfout w c (clock s2) vs | None => Err end)
           end in
         (* except: record_error, errored = True — finally: post_run_task hook, save(result) *)
         (bump (with_dir s2 (root cfg) c (Complete r)) c, evs ++ [EvRun c rerun r], r)
